@@ -498,23 +498,27 @@ theorem q_logonReply (s : Sess) (m : InMsg) (flag : Bool) : Q 0 s (logonReply s 
   unfold logonReply
   q_cases
 
-theorem q_nxEval (s : Sess) (m : InMsg) (ns : Int) : Q 0 s (nxEval s m ns) := by
+theorem q_nxEval (s : Sess) (m : InMsg) (ns : Int) : Q 0 s (nxEval s m ns).1 := by
   unfold nxEval
   q_cases
 
 theorem q_logonFinish (s : Sess) (m : InMsg) (ns : Int) : Q 0 s (logonFinish s m ns).1 := by
   unfold logonFinish
-  have h : Q 0 s (nxEval (((s.setSentReset false).emit (.armPeer (1200 * s.hb))).emit .onLogon) m ns) :=
+  have h : Q 0 s (nxEval (((s.setSentReset false).emit (.armPeer (1200 * s.hb))).emit .onLogon) m ns).1 :=
     Q.trans0 (by q_peel) (q_nxEval _ m ns)
-  generalize nxEval _ m ns = x at h
-  dsimp only
-  q_cases
+  generalize nxEval _ m ns = r at h
+  obtain ⟨x, o⟩ := r
+  cases o with
+  | some r => exact h
+  | none =>
+    dsimp only at h ⊢
+    q_cases
 
 theorem q_logonRefused (s : Sess) (m : InMsg) : Q 0 s (logonRefused s m) := by
   unfold logonRefused
   q_cases
 
-theorem q_logonTail (s : Sess) (m : InMsg) : Q 0 s (logonTail s m).1 := by
+theorem q_logonTail (s : Sess) (m : InMsg) (ns : Int) : Q 0 s (logonTail s m ns).1 := by
   unfold logonTail
   split
   · exact q_logonRefused s m
@@ -546,7 +550,7 @@ theorem q_handleLogon (s : Sess) (m : InMsg) : Q 0 s (handleLogon s m).1 := by
       have h4 := h3.trans0 hv2
       cases o2 with
       | some r => exact h4
-      | none => exact h4.trans0 (q_logonTail s4 m)
+      | none => exact h4.trans0 (q_logonTail s4 m _)
 
 theorem q_inSessionFixMsgIn (s : Sess) (m : InMsg) : Q (K s) s (inSessionFixMsgIn s m).1 := by
   unfold inSessionFixMsgIn
@@ -1045,14 +1049,20 @@ theorem kept_enqueueAndSend (s : Sess) (m : OutMsg) : Kept s (enqueueAndSend s m
   repeat' split
   all_goals exact ⟨rfl, rfl, rfl⟩
 
-theorem kept_nxEval (s : Sess) (m : InMsg) (ns : Int) : Kept s (nxEval s m ns) := by
+theorem kept_nxEval (s : Sess) (m : InMsg) (ns : Int) : Kept s (nxEval s m ns).1 := by
   unfold nxEval
   repeat' split
   all_goals first | exact kept_enqueueAndSend s _ | exact ⟨rfl, rfl, rfl⟩
 
-theorem logonFinish_high (s s' : Sess) (m : InMsg) (ns n t : Int) (h : logonFinish s m ns = (s', some (.rej (.tooHigh n t)))) :
+theorem logonFinish_high (s s' : Sess) (m : InMsg) (ns n t : Int) (hq : NxNoErr s.cfg)
+    (h : logonFinish s m ns = (s', some (.rej (.tooHigh n t)))) :
     t = s'.store.target ∧ getInt m 34 = .val n ∧ n > t := by
   unfold logonFinish at h
+  have he := nxEval_noErr (((s.setSentReset false).emit (.armPeer (1200 * s.hb))).emit .onLogon) m ns hq
+  generalize nxEval _ m ns = r at h he
+  obtain ⟨x, o⟩ := r
+  simp only [] at he
+  subst he
   simp only [] at h
   split at h
   · rename_i r' hc
@@ -1071,39 +1081,62 @@ theorem logonFinish_high (s s' : Sess) (m : InMsg) (ns n t : Int) (h : logonFini
       · cases hc
   · simp at h
 
-theorem logonTail_high (s s' : Sess) (m : InMsg) (n t : Int) (h : logonTail s m = (s', some (.rej (.tooHigh n t)))) :
+theorem logonTail_high (s s' : Sess) (m : InMsg) (ns n t : Int) (hq : NxNoErr s.cfg)
+    (h : logonTail s m ns = (s', some (.rej (.tooHigh n t)))) :
     t = s'.store.target ∧ getInt m 34 = .val n ∧ n > t := by
   unfold logonTail at h
   split at h
   · simp at h
-  · exact logonFinish_high _ s' m _ n t h
+  · exact logonFinish_high _ s' m _ n t (by rw [(q_logonReply s m _).cfg]; exact hq) h
 
 /-- the only way `handleLogon` reports a gap: the Logon was accepted, answered, the session notified, and its number is
-    above the expected one -/
-theorem handleLogon_high (s s' : Sess) (m : InMsg) (n t : Int) (h : handleLogon s m = (s', some (.rej (.tooHigh n t)))) :
+    above the expected one.  `hq`: EnableNextExpectedMsgSeqNum off, or message persistence on — with the option and without
+    persistence a peer's 789 different from our outbound number is reported by the same error, with `n` the peer's 789 and
+    `t` our OUTBOUND number (`handleLogon_high_nx_nopersist` in Props/C04.lean) -/
+theorem handleLogon_high (s s' : Sess) (m : InMsg) (n t : Int) (hq : NxNoErr s.cfg)
+    (h : handleLogon s m = (s', some (.rej (.tooHigh n t)))) :
     t = s'.store.target ∧ getInt m 34 = .val n ∧ n > t := by
   unfold handleLogon at h
   split at h
   · simp at h
-  · simp only [] at h
-    split at h
-    · rename_i s2 r hv
+  · generalize hs1 : (if (!s.cfg.initiator && s.cfg.refreshOnLogon) = true then s.emit Obs.refresh else s) = s1 at h
+    have h1 : Q 0 s s1 := by rw [← hs1]; q_peel
+    simp only [] at h
+    have hv := q_verifyAppImpl s1 m
+    have hn1 := verifyAppImpl_notHigh s1 m
+    generalize verifyAppImpl s1 m = r at hv hn1 h
+    obtain ⟨s2, o⟩ := r
+    simp only [] at hv hn1
+    cases o with
+    | some r =>
       simp only [Prod.mk.injEq, Option.some.injEq, LogonErr.rej.injEq] at h
-      have := verifyAppImpl_notHigh _ m r (by rw [hv])
+      have := hn1 r rfl
       rw [h.2] at this; cases this
-    · split at h
-      · rename_i s4 r hv
+    | none =>
+      simp only [] at h
+      generalize hs3 : (if ((if s2.cfg.initiator = true then false else s2.cfg.resetOnLogon) || logonResetFlag m && !s2.sentReset) = true
+          then dropAndReset s2 else s2) = s3 at h
+      have h3 : Q 0 s s3 := by rw [← hs3]; exact (h1.trans0 hv).trans0 (by q_peel)
+      have hv2 := q_verifySelect s3 m false true false
+      have hn2 := verifySelect_notHigh s3 m true false
+      generalize verifySelect s3 m false true false = r2 at hv2 hn2 h
+      obtain ⟨s4, o2⟩ := r2
+      simp only [] at hv2 hn2
+      cases o2 with
+      | some r =>
         simp only [Prod.mk.injEq, Option.some.injEq, LogonErr.rej.injEq] at h
-        have := verifySelect_notHigh _ m true false r (by rw [hv])
+        have := hn2 r rfl
         rw [h.2] at this; cases this
-      · exact logonTail_high _ s' m n t h
+      | none =>
+        simp only [] at h
+        exact logonTail_high s4 s' m _ n t (by rw [(h3.trans0 hv2).cfg]; exact hq) h
 
 /-- **Logon-detected gap**: the request for `[T, infinity]` (or the first chunk) is issued and the recovery state starts
     with an empty stash -/
-theorem logonFixMsgIn_high (s s' : Sess) (m : InMsg) (n t : Int) (hk : kindOf m = "A")
+theorem logonFixMsgIn_high (s s' : Sess) (m : InMsg) (n t : Int) (hk : kindOf m = "A") (hq : NxNoErr s.cfg)
     (h : handleLogon s m = (s', some (.rej (.tooHigh n t)))) :
     logonFixMsgIn s m = (sendInReplyTo s' (rrMsg s'.cfg s'.store.target (n - 1)), .resend [] (chunkCur s'.cfg s'.store.target (n - 1)) (n - 1)) := by
-  obtain ⟨rfl, _, _⟩ := handleLogon_high s s' m n t h
+  obtain ⟨rfl, _, _⟩ := handleLogon_high s s' m n t hq h
   unfold logonFixMsgIn
   simp only [hk, bne_self_eq_false, Bool.false_eq_true, if_false, h, sendResendRequest_eq]
 
@@ -1188,7 +1221,7 @@ theorem handleLogon_gap (s : Sess) (m : InMsg) (n : Int)
     (hb : checkBeginString s m = none) (hc : checkCompID s m = none)
     (ht : (curResend s).isSome = true ∨ checkSendingTime s m = none)
     (hn : getInt m 34 = .val n) (hgt : n > s.store.target)
-    (hnx : nxRefuses s m = false) :
+    (hnx : nxRefuses s m = false) (hq : NxNoErr s.cfg) :
     ∃ s', handleLogon s m = (s', some (.rej (.tooHigh n s.store.target))) ∧ Kept s s' := by
   unfold handleLogon
   simp only [hfixt, Bool.false_eq_true, if_false]
@@ -1214,12 +1247,18 @@ theorem handleLogon_gap (s : Sess) (m : InMsg) (n : Int)
   simp only [hr2, hnr, Bool.false_eq_true, if_false]
   have k3 := k2.trans (kept_logonReply_noReset (s1.emit (cbObs s1 m)) m)
   generalize logonReply (s1.emit (cbObs s1 m)) m false = s5 at k3
-  generalize (s1.emit (cbObs s1 m)).store.sender = ns
+  generalize s.store.sender = ns
   unfold logonFinish
-  simp only []
-  have k4 : Kept s (nxEval (((s5.setSentReset false).emit (Obs.armPeer (1200 * s5.hb))).emit Obs.onLogon) m ns) :=
+  have k4 : Kept s (nxEval (((s5.setSentReset false).emit (Obs.armPeer (1200 * s5.hb))).emit Obs.onLogon) m ns).1 :=
     (k3.trans (Kept.mk (s' := ((s5.setSentReset false).emit (Obs.armPeer (1200 * s5.hb))).emit Obs.onLogon) rfl rfl rfl)).trans
       (kept_nxEval _ m ns)
+  have he := nxEval_noErr (((s5.setSentReset false).emit (Obs.armPeer (1200 * s5.hb))).emit Obs.onLogon) m ns
+    (by show NxNoErr s5.cfg; rw [k3.cfg]; exact hq)
+  generalize nxEval _ m ns = r at k4 he
+  obtain ⟨x, o⟩ := r
+  simp only [] at he k4
+  subst he
+  simp only []
   rw [checkTooHigh_gt _ m n hn (by rw [k4.target]; exact hgt)]
   exact ⟨_, by rw [k4.target], k4⟩
 
